@@ -1,10 +1,10 @@
-import PsV.Proofs.AuxKeys
+import PsV.Proofs.AuxFits
 /-!
 # C16 — auxiliary keys behave as an ordered string map that survives serialisation
 
 Property theorems only.  They are about `PsV.Aux.writeKey / removeKey / getAux / readKeyInt / readKeyStr /
-validate / reserved` and the string-card routines `ffs2c / ffpsvc / stripValue` — the definitions `psvdriver C16`
-executes against the real code — instantiated with the constants and the reserved-prefix table of
+validate / reserved / step`, the string-card routines `ffs2c / mkCard / cardOf / ffgknm / ffpsvc / stripValue /
+entryOfCard` and the round trip `fitsTrip` — the definitions `psvdriver C16` executes against the real code — instantiated with the constants and the reserved-prefix table of
 `PsV.Gen.C16`, which `tools/gen_c16.py` regenerates from the working tree before every build.
 The model is that of the repaired code (fixes/C16-1..4.diff).
 -/
@@ -196,15 +196,11 @@ theorem C16_reserved_table_is_prefix_filter :
 
 example : reserved "ORDER12".toList = true ∧ reserved "ORDE".toList = false ∧ reserved "COMMENTARY X".toList = true := by decide
 
-/- Full statement wanted (accepted_survive_fits): for every store `st` all of whose entries were accepted by
-   `write_key` (keys non-empty, without leading/trailing blank, not starting with `HIERARCH `, not one of
-   END/HISTORY/CONTINUE, printable values) `fitsTrip st = some (st.map fun (k, v) => (k, v ++ blanks _))`.
-   Proved below: the value part, for the card layout of a standard (short) key — `ffs2c` (quote doubling, pad to
-   8, closing quote), then `ffpsvc` on columns 11.. of the card and the repaired quote stripping of
-   `read_fits_core` give back the value plus padding blanks, for every value the repaired `write_key` accepts
-   (length + quotes <= 68).  Missing: the key part of `mkCard`/`ffgknm` (blank padding of the name, the HIERARCH
-   layout, the forced closing quote for keys of 60..66 characters) and the lifting to whole stores; those are
-   covered by the differential run only (every `F` op and the single-entry card checks). -/
+/- accepted_survive_fits.  The full statement is `C16_accepted_survive_fits` further down (whole stores, key and
+   value, standard and HIERARCH cards).  The theorem below was the first step and is kept: the value part for the
+   card layout of a standard (short) key — `ffs2c` (quote doubling, pad to 8, closing quote), then `ffpsvc` on
+   columns 11.. of the card and the repaired quote stripping of `read_fits_core` give back the value plus padding
+   blanks, for every value the repaired `write_key` accepts (length + quotes <= 68). -/
 theorem C16_accepted_survive_fits_partial (k8 v : Str) (hk : k8.length = 8) (hv : v.length + countQuotes v ≤ 68)
     (h1 : hierPrefix.isPrefixOf (k8 ++ ['=', ' '] ++ ffs2c v) = false)
     (h2 : commentaryHeads.any (·.isPrefixOf (k8 ++ ['=', ' '] ++ ffs2c v)) = false) :
@@ -250,5 +246,257 @@ example : hierPrefix.isPrefixOf ("GEOTYPE ".toList ++ ['=', ' '] ++ ffs2c "it's"
     commentaryHeads.any (·.isPrefixOf ("GEOTYPE ".toList ++ ['=', ' '] ++ ffs2c "it's".toList)) = false ∧
     fitsTrip [("GEOTYPE".toList, "it's".toList), ("MY LONG KEY".toList, "'q'".toList)] =
       some [("GEOTYPE".toList, "it's   ".toList), ("MY LONG KEY".toList, "'q'   ".toList)] := by decide
+
+/-- **write_key accepts exactly** (repaired code, constants generated from the source): the key is not reserved; a
+    key of at most 8 characters is made of upper-case letters and digits and the value, every quote counted twice,
+    has at most 68 characters; a longer key has no `=` and no lower-case letter, at most 66 characters, and key and
+    value (quotes counted twice) together at most 67.  Everything else is rejected (`C16_reject_unchanged`). -/
+theorem C16_validate_iff (key val : Str) :
+    validate key val = none ↔
+      reserved key = false ∧
+      (key.length ≤ 8 → Alnum key ∧ val.length + countQuotes val ≤ 68) ∧
+      (9 ≤ key.length → ('=' ∉ key ∧ ∀ c ∈ key, c.isLower = false) ∧ key.length ≤ 66 ∧
+        key.length + (val.length + countQuotes val) ≤ 67) :=
+  validate_none_iff key val
+
+example : validate "K1".toList (List.replicate 34 '\'') = none ∧ validate "K1".toList (List.replicate 35 '\'') = some .valueTooLong ∧
+    validate "A LONG KEY".toList (List.replicate 57 'x') = none ∧ validate "A LONG KEY".toList (List.replicate 58 'x') = some .valueTooLong := by decide
+
+/-- **reservedFitsKeyword is the prefix filter of its table**, for every key: `strncmp(lit, key, n) == 0` for some
+    row of the generated table iff one of the literals is a prefix of the key (the same function filters the cards
+    when a file is read). -/
+theorem C16_reserved_iff_prefix (key : Str) :
+    reserved key = true ↔ ∃ p ∈ C16.reservedPrefixes, p.1 <+: key :=
+  reserved_iff_prefix key
+
+example : reserved "NAXIS12".toList = true ∧ reserved "NAXI".toList = false ∧ reserved "XTYPE".toList = false := by decide
+
+/-- **accepted_survive_fits, one entry (key and value).**  For an entry `write_key` accepted whose key cfitsio
+    stores verbatim (`PlainKey`: not empty, no leading/trailing blank, no explicit `HIERARCH ` prefix, not
+    END/HISTORY/CONTINUE, printable — the complement is the list of known findings) and whose value is printable:
+    `fits_write_key(TSTRING)` (= `ffs2c`, `ffmkky` with the standard 8-column keyword field or the
+    `HIERARCH name = ` layout incl. the `= ` variant and the cut-off padding / forced closing quote of a full card,
+    `ffprec`) succeeds with a card of exactly 80 columns (only padding blanks are ever cut off, never the value), the card does not terminate the header, and `fits_read_keyn` (= `ffgrec`, `ffgknm`,
+    `ffpsvc`) followed by the reserved filter and the repaired quote stripping of `read_fits_core` returns the same
+    key and the value followed by `padOf k v <= 8` blanks. -/
+theorem C16_accepted_entry_survives_fits (k v : Str) (hacc : validate k v = none) (hk : PlainKey k) (hv : PlainVal v) :
+    ∃ card, cardOf (k, v) = some card ∧ card.length = 80 ∧ isEndCard card = false ∧
+      entryOfCard card = some (k, v ++ blanks (padOf k v)) ∧
+      padOf k v ≤ 8 ∧ rstrip (v ++ blanks (padOf k v)) = rstrip v := by
+  obtain ⟨card, h1, h0, h2, h3⟩ := entry_survives k v hacc hk hv
+  exact ⟨card, h1, h0, h2, h3, padOf_le k v, rstrip_pad v _⟩
+
+/-- hypotheses satisfiable: a HIERARCH key with a quote and a key of 66 characters (full card, forced closing quote) -/
+example : PlainKey "LONG KEY'S NAME".toList ∧ PlainVal "it's".toList ∧ validate "LONG KEY'S NAME".toList "it's".toList = none ∧
+    PlainKey (List.replicate 66 'K') ∧ validate (List.replicate 66 'K') ['x'] = none ∧
+    (cardOf (List.replicate 66 'K', ['x'])).bind entryOfCard = some (List.replicate 66 'K', ['x']) :=
+  ⟨⟨by decide, by decide, by decide, by decide, by decide, by decide, by decide, by decide⟩, by decide, by decide,
+   ⟨by decide, by decide, by decide, by decide, by decide, by decide, by decide, by decide⟩, by decide, by decide⟩
+
+/-- **accepted_survive_fits (whole stores).**  For every store all of whose entries were accepted by `write_key`,
+    have plain keys and printable values: `write_fits_mem` followed by `read_fits_mem` (`fitsTrip`: one card per
+    entry in array order, cut at an END card, reserved names filtered, nothing de-duplicated) succeeds and returns
+    the same keys in the same order, every value intact apart from trailing blanks (at most 8, `padOf`); lookups
+    agree up to that padding; uniqueness of keys is kept; the result is again accepted and is a fixed point of
+    the round trip (so any number of round trips changes nothing more). -/
+theorem C16_accepted_survive_fits (st : Store) (h : Accepted st) :
+    fitsTrip st = some (padStore st) ∧
+    keys (padStore st) = keys st ∧
+    (padStore st).map (fun e => (e.1, rstrip e.2)) = st.map (fun e => (e.1, rstrip e.2)) ∧
+    (∀ k, getAux (padStore st) k = (getAux st k).map fun v => v ++ blanks (padOf k v)) ∧
+    (NoDupKeys st → NoDupKeys (padStore st)) ∧
+    Accepted (padStore st) ∧ fitsTrip (padStore st) = some (padStore st) := by
+  have ha := accepted_padStore st h
+  refine ⟨fitsTrip_accepted st h, keys_padStore st, rstrip_padStore st, getAux_padStore st, ?_, ha, ?_⟩
+  · intro hn; unfold NoDupKeys; rw [keys_padStore]; exact hn
+  · have := fitsTrip_accepted (padStore st) ha
+    rw [padStore_idem] at this; exact this
+
+example : fitsTrip [("GEOTYPE".toList, "it's".toList), ("MY LONG KEY".toList, "'q'".toList), ("N".toList, showInt (-7))] =
+    some [("GEOTYPE".toList, "it's   ".toList), ("MY LONG KEY".toList, "'q'   ".toList), ("N".toList, "-7      ".toList)] := by decide
+
+/-- **histories.**  From a store with unique, accepted, plain entries (e.g. the empty one), any sequence of
+    operations of the differential run whose written keys are plain and values printable — writes (string, int,
+    text), overwrites, removals, lookups, typed reads and FITS round trips, in any order — keeps the store a
+    duplicate-free accepted store, and a FITS round trip at any point succeeds and returns the store with its
+    values padded (`C16_accepted_survive_fits`). -/
+theorem C16_history_survives (st : Store) (ops : List Op) (hn : NoDupKeys st) (ha : Accepted st)
+    (hops : ∀ op ∈ ops, PlainOp op) :
+    NoDupKeys (runOps st ops) ∧ Accepted (runOps st ops) ∧
+    step (runOps st ops) .fits = (.fitsOk, padStore (runOps st ops)) := by
+  have hw : ∀ (s : Store) (k v : Str), NoDupKeys s → Accepted s → PlainKey k → PlainVal v →
+      NoDupKeys (writeKey s k v).2 ∧ Accepted (writeKey s k v).2 := by
+    intro s k v hn ha hk hv
+    refine ⟨?_, accepted_writeKey s k v ha hk hv⟩
+    cases hacc : (writeKey s k v).1.accepted with
+    | true => exact ((C16_aux_refines_ordered_map s hn).2.1 k v hacc).2.1
+    | false => rw [C16_reject_unchanged s k v hacc]; exact hn
+  have hstep : ∀ (s : Store) (op : Op), NoDupKeys s → Accepted s → PlainOp op →
+      NoDupKeys (step s op).2 ∧ Accepted (step s op).2 := by
+    intro s op hn ha hp
+    cases op with
+    | writeStr k v => exact hw s k v hn ha hp.1 hp.2
+    | writeText k v => exact hw s k v hn ha hp.1 hp.2
+    | writeInt k n => exact hw s k (showInt n) hn ha hp (plainVal_showInt n)
+    | remove k =>
+      refine ⟨?_, accepted_removeKey s k ha⟩
+      have := (C16_aux_refines_ordered_map s hn).2.2 k
+      show NoDupKeys (removeKey s k).2
+      rw [this.1]; exact this.2
+    | get k => exact ⟨hn, ha⟩
+    | readInt k => exact ⟨hn, ha⟩
+    | readStr k => exact ⟨hn, ha⟩
+    | readText k => exact ⟨hn, ha⟩
+    | fits =>
+      have h := C16_accepted_survive_fits s ha
+      show NoDupKeys (match fitsTrip s with | none => (Out.fitsWriteFailed, s) | some s' => (Out.fitsOk, s')).2 ∧
+        Accepted (match fitsTrip s with | none => (Out.fitsWriteFailed, s) | some s' => (Out.fitsOk, s')).2
+      rw [h.1]
+      exact ⟨h.2.2.2.2.1 hn, h.2.2.2.2.2.1⟩
+  induction ops generalizing st with
+  | nil =>
+    refine ⟨hn, ha, ?_⟩
+    show (match fitsTrip st with | none => (Out.fitsWriteFailed, st) | some s' => (Out.fitsOk, s')) = _
+    rw [(C16_accepted_survive_fits st ha).1]; rfl
+  | cons op r ih =>
+    obtain ⟨h1, h2⟩ := hstep st op hn ha (hops op (by simp))
+    exact ih (step st op).2 h1 h2 (fun o ho => hops o (by simp [ho]))
+
+example : (∀ op ∈ [Op.writeStr "A".toList "it's".toList, .writeInt "LONG KEY 1".toList 12, .fits, .remove "A".toList, .fits], PlainOp op) ∧
+    runOps [] [Op.writeStr "A".toList "it's".toList, .writeInt "LONG KEY 1".toList 12, .fits, .remove "A".toList, .fits]
+      = [("LONG KEY 1".toList, "12      ".toList)] := by
+  refine ⟨?_, by decide⟩
+  intro op hop
+  simp only [List.mem_cons, List.not_mem_nil, or_false] at hop
+  rcases hop with rfl | rfl | rfl | rfl | rfl
+  · exact ⟨⟨by decide, by decide, by decide, by decide, by decide, by decide, by decide, by decide⟩, by decide⟩
+  · exact ⟨by decide, by decide, by decide, by decide, by decide, by decide, by decide, by decide⟩
+  · trivial
+  · trivial
+  · trivial
+
+/-- **int_survives_fits.**  An `int` written under a plain key into an accepted store is still read back exactly
+    after a FITS round trip of the whole store (the padding blanks follow the digits and stop `operator>>`). -/
+theorem C16_int_survives_fits (st : Store) (k : Str) (n : Int) (hlo : intMin ≤ n) (hhi : n ≤ intMax)
+    (hn : NoDupKeys st) (ha : Accepted st) (hk : PlainKey k)
+    (hacc : (writeKey st k (showInt n)).1.accepted = true) :
+    ∃ st', fitsTrip (writeKey st k (showInt n)).2 = some st' ∧ readKeyInt st' k = .parsed true (some n) := by
+  have ha' := accepted_writeKey st k (showInt n) ha hk (plainVal_showInt n)
+  refine ⟨_, (C16_accepted_survive_fits _ ha').1, ?_⟩
+  unfold readKeyInt
+  rw [getAux_padStore, (C16_string_roundtrip st k (showInt n) hn hacc).2]
+  simp only [Option.map_some, parseInt_showInt_pad n _ hlo hhi]
+
+example : (writeKey [] "N".toList (showInt (-2147483648))).1.accepted = true ∧
+    (fitsTrip (writeKey [] "N".toList (showInt (-2147483648))).2).map (readKeyInt · "N".toList) = some (.parsed true (some (-2147483648))) := by decide
+
+/-- **structural cards are filtered.**  Cards whose keyword starts with a literal of the generated table (all the
+    cards `write_fits_core` itself puts into the primary header: SIMPLE, BITPIX, NAXIS*, EXTEND, COMMENT, TYPE,
+    ORDER*, PERIOD*) never become auxiliary entries, wherever they stand in front of the auxiliary cards. -/
+theorem C16_structural_cards_filtered (pre cards : List (List Char))
+    (h : ∀ c ∈ pre, ∃ p ∈ C16.reservedPrefixes, p.1 <+: ffgknm (rstrip c)) :
+    (pre ++ cards).filterMap entryOfCard = cards.filterMap entryOfCard :=
+  filterMap_reserved_cards pre cards fun c hc => (reserved_iff_prefix _).mpr (h c hc)
+
+example : ∀ c ∈ ["SIMPLE  =                    T / file does conform to FITS standard".toList, "NAXIS1  =                   12".toList,
+      "ORDER0  =                    2 / B-Spline Order".toList, "TYPE    = 'Spline Coefficient Table'".toList,
+      "COMMENT   FITS (Flexible Image Transport System) format is defined in 'Astronomy".toList, "PERIOD1 =                   0.".toList],
+    reserved (ffgknm (rstrip c)) = true := by decide
+
+/-- **histories refine the ordered map.**  Folding the operations of `aux.h` over any history (any keys and values,
+    accepted or not) equals folding the specification `Spec.apply` (put / del / nothing) and keeps the keys unique,
+    as long as no FITS round trip is involved; with round trips the same holds for plain keys and printable
+    values from an accepted store (`padStore` being the specification of the round trip). -/
+theorem C16_history_refines_map (st : Store) (ops : List Op) (hn : NoDupKeys st) :
+    ((∀ op ∈ ops, isFits op = false) →
+      runOps st ops = ops.foldl Spec.apply st ∧ NoDupKeys (runOps st ops)) ∧
+    (Accepted st → (∀ op ∈ ops, PlainOp op) → runOps st ops = ops.foldl Spec.apply st) := by
+  have hw : ∀ (s : Store) (k v : Str), NoDupKeys s →
+      (writeKey s k v).2 = (if validate k v = none then Spec.put s k v else s) := by
+    intro s k v hn
+    cases hacc : (writeKey s k v).1.accepted with
+    | true =>
+      have hv : validate k v = none := by
+        unfold writeKey at hacc
+        cases hv : validate k v with
+        | none => rfl
+        | some e => rw [hv] at hacc; exact absurd hacc (by simp [WOut.accepted])
+      rw [if_pos hv]; exact ((C16_aux_refines_ordered_map s hn).2.1 k v hacc).1
+    | false =>
+      have hv : validate k v ≠ none := by
+        intro hv
+        unfold writeKey at hacc
+        rw [hv] at hacc
+        by_cases hh : hasKey s k = true <;> simp [hh, WOut.accepted] at hacc
+      rw [if_neg hv]; exact C16_reject_unchanged s k v hacc
+  have hstep : ∀ (s : Store) (op : Op), NoDupKeys s → (isFits op = false ∨ Accepted s) →
+      (step s op).2 = Spec.apply s op := by
+    intro s op hn hf
+    cases op with
+    | writeStr k v => exact hw s k v hn
+    | writeText k v => exact hw s k v hn
+    | writeInt k n => exact hw s k (showInt n) hn
+    | remove k =>
+      show (removeKey s k).2 = Spec.del s k
+      rw [((C16_aux_refines_ordered_map s hn).2.2 k).1]
+    | get k => rfl
+    | readInt k => rfl
+    | readStr k => rfl
+    | readText k => rfl
+    | fits =>
+      rcases hf with hf | hf
+      · exact absurd hf (by simp [isFits])
+      · show (match fitsTrip s with | none => (Out.fitsWriteFailed, s) | some s' => (Out.fitsOk, s')).2 = padStore s
+        rw [(C16_accepted_survive_fits s hf).1]
+  have hnd : ∀ (s : Store) (op : Op), NoDupKeys s → isFits op = false → NoDupKeys (Spec.apply s op) := by
+    intro s op hn hf
+    cases op with
+    | writeStr k v => show NoDupKeys (if _ then _ else _); split; exact nodup_put s k v hn; exact hn
+    | writeText k v => show NoDupKeys (if _ then _ else _); split; exact nodup_put s k v hn; exact hn
+    | writeInt k n => show NoDupKeys (if _ then _ else _); split; exact nodup_put s k _ hn; exact hn
+    | remove k => exact nodup_del s k hn
+    | get k => exact hn
+    | readInt k => exact hn
+    | readStr k => exact hn
+    | readText k => exact hn
+    | fits => exact absurd hf (by simp [isFits])
+  constructor
+  · intro hops
+    induction ops generalizing st with
+    | nil => exact ⟨rfl, hn⟩
+    | cons op r ih =>
+      have hf := hops op (by simp)
+      have e := hstep st op hn (Or.inl hf)
+      have := ih (step st op).2 (e ▸ hnd st op hn hf) (fun o ho => hops o (by simp [ho]))
+      simp only [runOps, List.foldl_cons] at this ⊢
+      rw [← e]; exact this
+  · intro ha hops
+    induction ops generalizing st with
+    | nil => rfl
+    | cons op r ih =>
+      have e := hstep st op hn (Or.inr ha)
+      have hg := C16_history_survives st [op] hn ha (fun o ho => hops o (by simp only [List.mem_singleton] at ho; simp [ho]))
+      have := ih (step st op).2 hg.1 hg.2.1 (fun o ho => hops o (by simp [ho]))
+      simp only [runOps, List.foldl_cons] at this ⊢
+      rw [← e]; exact this
+
+example : runOps [] [Op.writeStr "A".toList "1".toList, .writeStr "b".toList "x".toList, .writeInt "B".toList 2, .writeStr "A".toList "3".toList, .remove "B".toList]
+    = [("A".toList, "3".toList)] := by decide
+
+/-- **the hypotheses on keys and values are needed** (the known findings of C16, as theorems about the model):
+    each of these entries is accepted by the repaired `write_key` and does not survive the round trip — empty key,
+    leading blank, trailing blank, explicit `HIERARCH ` prefix, END (this entry and all later ones are lost),
+    HISTORY, CONTINUE (value lost), a control character in the value (blanked). -/
+theorem C16_plain_hypotheses_needed :
+    (validate [] ['v'] = none ∧ fitsTrip [([], ['v'])] = some [([], [])]) ∧
+    (validate " LEADING SP".toList ['v'] = none ∧ (fitsTrip [(" LEADING SP".toList, ['v'])]).map keys = some ["LEADING SP".toList]) ∧
+    (validate "TRAILING SP ".toList ['v'] = none ∧ (fitsTrip [("TRAILING SP ".toList, ['v'])]).map keys = some ["TRAILING SP".toList]) ∧
+    (validate "HIERARCH FOO".toList ['v'] = none ∧ (fitsTrip [("HIERARCH FOO".toList, ['v'])]).map keys = some ["FOO".toList]) ∧
+    (validate endKey ['v'] = none ∧ fitsTrip [(['B'], ['0']), (endKey, ['v']), (['A'], ['1'])] = some [(['B'], "0       ".toList)]) ∧
+    (validate historyKey ['v'] = none ∧ fitsTrip [(historyKey, ['v'])] = some [(historyKey, [])]) ∧
+    (validate continueKey ['v'] = none ∧ fitsTrip [(continueKey, ['v'])] = some [(continueKey, [])]) ∧
+    (validate ['A'] "\t12".toList = none ∧ fitsTrip [(['A'], "\t12".toList)] = some [(['A'], " 12     ".toList)]) :=
+  ⟨⟨by decide, by decide⟩, ⟨by decide, by decide⟩, ⟨by decide, by decide⟩, ⟨by decide, by decide⟩, ⟨by decide, by decide⟩,
+   ⟨by decide, by decide⟩, ⟨by decide, by decide⟩, ⟨by decide, by decide⟩⟩
 
 end PsV
